@@ -170,6 +170,8 @@ class Evaluator:
         self.self_inline = set(self_inline)
         self.known_len_fields = {}  # attribute name -> static length (verified separately by a rule)
         self.canon_kw_functions = set()  # dotted names of repo functions whose keyword calls are rewritten positionally
+        self.keep_kw_functions = {"genjax.pjax.sample_binder", "genjax.pjax.log_density_binder", "genjax.pjax.wrap_sampler", "genjax.pjax.wrap_logpdf",
+                                  "genjax.pjax.initial_style_bind", "genjax.pjax.modular_vmap", "genjax.core.distribution", "genjax.core.tfp_distribution"}
         self.param_class = {}  # parameter name -> dotted repo class whose concrete methods are inlined when called on that parameter
         # private helpers (leading underscore) of the repo are inlined by default, so that extracting a helper does not
         # change the symbolic value; the ones rules treat as atoms are listed here
@@ -1273,8 +1275,10 @@ class Evaluator:
         if fn[0] != "name" or not kwargs or any(k is None for k, _ in kwargs) or any(a[0] == "star" for a in args):
             return args, kwargs
         r = self.p.lookup(fn[1])
-        if r is not None and r[0] == "func" and isinstance(r[1], ast.FunctionDef) and not r[1].args.posonlyargs and fn[1] in self.canon_kw_functions:
-            # a repo-local function a rule has asked for: f(a, b) and f(x=a, y=b) are one term (parameters in signature order)
+        if r is not None and r[0] == "func" and isinstance(r[1], ast.FunctionDef) and not r[1].args.posonlyargs \
+                and (fn[1] in self.canon_kw_functions or (not r[1].args.vararg and fn[1] not in self.keep_kw_functions)):
+            # a repo-local function: f(a, b) and f(x=a, y=b) are one term (keywords that continue the positional prefix become positional, in
+            # signature order).  Functions whose callers customarily pass options by keyword, and which rules read by name, are exempt.
             fields = [a.arg for a in r[1].args.args]
         elif r is None or r[0] != "class":
             return args, kwargs
